@@ -132,7 +132,7 @@ func load(args map[string]string) error {
 	// ---- regions: all three backends, flush / close / stop without close, a write that fails once
 	for _, n := range sizes {
 		for kind, ids := range idSets(rng, n) {
-			for _, backend := range []string{"mem", "leveldb", "leveldb-stop", "leveldb-flushfail", "leveldb-cancel", "limit"} {
+			for _, backend := range []string{"mem", "leveldb", "leveldb-stop", "leveldb-flushfail", "leveldb-cancel", "leveldb-unused", "limit"} {
 				if (backend == "limit" && n < 100) || (n > 1001 && backend != "mem" && backend != "leveldb") {
 					continue
 				}
@@ -148,7 +148,12 @@ func load(args map[string]string) error {
 						return err
 					}
 					st = core.NewStorage(mem, core.WithRegionStorage(rs))
-					st.SwitchToRegionStorage()
+					if backend == "leveldb-unused" {
+						// a region storage is attached but the configuration says not to use it: everything goes to the default backend
+						st.SwitchToDefaultStorage()
+					} else {
+						st.SwitchToRegionStorage()
+					}
 				} else {
 					st = core.NewStorage(lk)
 				}
@@ -214,7 +219,7 @@ func load(args map[string]string) error {
 					}
 				}
 				switch backend {
-				case "leveldb", "leveldb-flushfail":
+				case "leveldb", "leveldb-flushfail", "leveldb-unused":
 					if st.Close() == nil {
 						flushed = append([]string{}, saved...)
 					}
@@ -244,7 +249,11 @@ func load(args map[string]string) error {
 						return err
 					}
 					st2 = core.NewStorage(mem, core.WithRegionStorage(rs2))
-					st2.SwitchToRegionStorage()
+					if backend == "leveldb-unused" {
+						st2.SwitchToDefaultStorage()
+					} else {
+						st2.SwitchToRegionStorage()
+					}
 				} else {
 					st2 = st
 					if backend == "limit" {
